@@ -259,6 +259,36 @@ def run_preset_h(ctx, pt):
     ctx.eq('C01/%s/chaining-value-with-coinciding-words' % a, r, ('ok', mdsha.md_hash(a, m, None, h0=h0, count0=c0)))
 
 
+# ---- what was used first in the process -------------------------------------------------------------------------
+
+def _first_uses():
+    from crysp.blake import Blake, Blake2
+    from crysp.hmac import HMAC
+    from crysp.sha import SHA2, SHA3
+    f = {a: (lambda a: lambda: mk(a)(b'x' * 70, bitlen=557))(a) for a in OUTLEN}
+    f.update({'Blake-%d' % n: (lambda n: lambda: Blake(n)(b'x'))(n) for n in (224, 256, 384, 512)})
+    f.update({'Blake2(%d)' % n: (lambda n: lambda: Blake2(n)(b'x'))(n) for n in (224, 256, 384, 512)})
+    f['HMAC-sha512_224'] = lambda: HMAC(mk('sha512_224'), b'k' * 200)(b'x')
+    f['HMAC-md5'] = lambda: HMAC(mk('md5'), b'k')(b'x')
+    f['SHA3-384'] = lambda: SHA3(384)(b'x')
+    f['constructed only: every SHA-2 variant in descending order'] = lambda: [mk(a) for a in ('sha512_256', 'sha512_224', 'sha512', 'sha384', 'sha256', 'sha224')] and None
+    f['unfinished update on SHA-512/256'] = lambda: mk('sha512_256').update(b'y' * 128)
+    return f
+
+
+def pts_firstuse(tier):
+    return [(f, a) for f in sorted(_first_uses()) for a in OUTLEN if f != a]
+
+
+def run_firstuse(ctx, pt):
+    """a fresh process in which another hash configuration (of this property or not) is used first"""
+    f, a = pt
+    ctx.attempt(_first_uses()[f])
+    m = expander(150, 3)
+    ctx.eq('C01/%s/after-another-configuration-was-used-first-in-the-process' % a, ctx.attempt(lambda: mk(a)(m)), ('ok', ref(a, m)))
+    ctx.eq('C01/%s/after-another-configuration-was-used-first-in-the-process' % a, ctx.attempt(lambda: mk(a)(m, bitlen=1003)), ('ok', ref(a, m, 1003)))
+
+
 def selftest():
     try:
         n = mdsha.selftest()
@@ -278,6 +308,8 @@ def subchecks():
         Sub('container', pts_container, run_container, engine='P',
             bound='bit length L near every boundary, container 1 byte / 1 block longer than ceil(L/8)'),
         Sub('reject', pts_reject, run_reject, engine='P', bound='bitlen = 8|M| + {1,7,8,B} for |M| in {0,1,B/8-cs/8,B/8}'),
+        Sub('first-use-order', pts_firstuse, run_firstuse, engine='H', chunk=1,
+            bound='every pair (configuration used first in a fresh process, algorithm): 23 first uses (each of the 10 algorithms with a bit length, every BLAKE / Blake2 size, HMAC over SHA-512/224 and MD5, SHA3-384, objects constructed but never called, an unfinished update) x 10 algorithms, byte and bit-length call vs reference'),
         Sub('preset-chaining-values', pts_preset_h, run_preset_h, engine='H',
             bound='live object whose chaining words are preset to 6 coinciding patterns (all equal, zero, all-ones, H[i]==H[i+n/2], H[0]==H[1], tail equal to earlier words), then update(M, padding=True) with |M| in {0, 3, one block+1}'),
         Sub('preset-counters', pts_preset, run_preset, engine='H',
